@@ -780,3 +780,87 @@ Qed.
 Print Assumptions C08_header_helpers_nonvacuous.
 
 (* ==== end headers ==== *)
+
+(* ==== tickets and tokens (round 3) ==== *)
+(** Session tickets (internal/handshake/session_ticket.go, model Wire/Tickets.v; this fork's ticket is
+    the revision varint followed by the transport parameters in their ticket form, no RTT field) and
+    the framing of address-validation tokens (model AmpToken/TokenModel.v of C14, whose `token` unit
+    ties it to the code; the AEAD and encoding/asn1 are parameters). *)
+From V Require Import Wire.Tickets Wire.TicketsProofs AmpToken.TokenModel AmpToken.TokenProofs.
+
+Theorem C08_ticket_roundtrip : forall p,
+  tp_wf_ticket p -> ticket_unmarshal (ticket_marshal p) = Ok (tp_norm_ticket p).
+Proof. exact ticket_codec_roundtrip. Qed.
+Print Assumptions C08_ticket_roundtrip.
+
+(** rejections: nothing to read; any revision but the current one (the error carries it); a foreign
+    parameter-marshaling version; a stray byte behind a valid ticket *)
+Theorem C08_ticket_reject_empty : ticket_unmarshal [] = Err E_TK_READ 0.
+Proof. exact ticket_reject_empty. Qed.
+Print Assumptions C08_ticket_reject_empty.
+
+Theorem C08_ticket_reject_revision : forall rev rest,
+  vwf rev -> rev <> TK_Revision -> ticket_unmarshal (vappend rev ++ rest) = Err E_TK_REVISION rev.
+Proof. exact ticket_reject_revision. Qed.
+Print Assumptions C08_ticket_reject_revision.
+
+Theorem C08_ticket_reject_param_version : forall v rest,
+  vwf v -> v <> TP_MarshalVersion ->
+  ticket_unmarshal (vappend TK_Revision ++ vappend v ++ rest) = Err E_TK_PARAMS 0.
+Proof. exact ticket_reject_param_version. Qed.
+Print Assumptions C08_ticket_reject_param_version.
+
+Theorem C08_ticket_reject_trailing_byte : forall p x,
+  tp_wf_ticket p -> is_byte x -> ticket_unmarshal (ticket_marshal p ++ [x]) = Err E_TK_PARAMS 0.
+Proof. exact ticket_reject_trailing_byte. Qed.
+Print Assumptions C08_ticket_reject_trailing_byte.
+
+Example C08_ticket_nonvacuous :
+  tp_wf_ticket ex_tp /\ TK_Revision = 5 /\
+  ticket_unmarshal (ticket_marshal ex_tp) = Ok (tp_norm_ticket ex_tp) /\
+  ticket_unmarshal (ticket_marshal ex_tp ++ [0]) = Err E_TK_PARAMS 0 /\
+  ticket_unmarshal (4 :: tl (ticket_marshal ex_tp)) = Err E_TK_REVISION 4.
+Proof.
+  split; [exact ex_tp_wf_ticket|]. repeat split; vm_compute; reflexivity.
+Qed.
+Print Assumptions C08_ticket_nonvacuous.
+
+(** Tokens: an issued token decodes to what was sealed (C14's lemma, restated for the codec claim) ... *)
+Theorem C08_token_roundtrip :
+  forall (K : Type) (prot_seal : K -> list Z -> list Z -> list Z)
+         (prot_open : K -> list Z -> list Z -> option (list Z))
+         (marshal : rec -> list Z) (unmarshal : list Z -> option (rec * list Z))
+         (sealed : K -> list Z -> list Z -> Prop),
+  oracles_correct prot_seal prot_open marshal unmarshal sealed ->
+  forall k enc r, issued K prot_seal marshal sealed k enc r ->
+  decode K prot_open unmarshal k enc = DTok (tok_of_rec r).
+Proof. exact decode_issued. Qed.
+Print Assumptions C08_token_roundtrip.
+
+(** ... and whatever is too short for the nonce, cannot be opened, or carries bytes behind the
+    ASN.1 record is an error (never a token, never "no token"); only the empty string is "no token". *)
+Theorem C08_token_reject_short : forall K prot_open unmarshal (k : K) enc,
+  0 < zlen enc < tokenNonceSize -> decode K prot_open unmarshal k enc = DErr.
+Proof. exact decode_short. Qed.
+Print Assumptions C08_token_reject_short.
+
+Theorem C08_token_reject_unopenable : forall K prot_open unmarshal (k : K) enc,
+  enc <> [] -> (tokenNonceSize <= zlen enc -> prot_open k (firstn nonceLen enc) (skipn nonceLen enc) = None) ->
+  decode K prot_open unmarshal k enc = DErr.
+Proof. exact token_reject_unopenable. Qed.
+Print Assumptions C08_token_reject_unopenable.
+
+Theorem C08_token_reject_trailing : forall K prot_open unmarshal (k : K) enc data r rest,
+  tokenNonceSize <= zlen enc ->
+  prot_open k (firstn nonceLen enc) (skipn nonceLen enc) = Some data ->
+  unmarshal data = Some (r, rest) -> rest <> [] ->
+  decode K prot_open unmarshal k enc = DErr.
+Proof. exact token_reject_trailing. Qed.
+Print Assumptions C08_token_reject_trailing.
+
+Theorem C08_token_nil_iff : forall K prot_open unmarshal (k : K) enc,
+  decode K prot_open unmarshal k enc = DNil <-> enc = [].
+Proof. exact decode_nil_iff. Qed.
+Print Assumptions C08_token_nil_iff.
+
+(* ==== end tickets and tokens ==== *)
